@@ -121,6 +121,12 @@ func jsTypeNoNull(m *Model, t T) map[string]any {
 			branches = append(branches, jsType(m, b))
 		}
 		s["anyOf"] = branches
+	case KIntersection:
+		var branches []any
+		for _, r := range t.Refs {
+			branches = append(branches, map[string]any{"$ref": "#/definitions/" + r})
+		}
+		s["allOf"] = branches
 	case KUStructs:
 		var branches []any
 		for _, r := range t.Refs {
@@ -373,6 +379,12 @@ func oaType(m *Model, t T) map[string]any {
 			branches = append(branches, oaType(m, b))
 		}
 		s["anyOf"] = branches
+	case KIntersection:
+		var branches []any
+		for _, r := range t.Refs {
+			branches = append(branches, map[string]any{"$ref": "#/components/schemas/" + r})
+		}
+		s["allOf"] = branches
 	case KUStructs:
 		var branches []any
 		mapping := map[string]any{}
